@@ -61,3 +61,28 @@ package transport_controller
 //@   assert at call link.NewHandleMountedStream: arg0 == streamEst.ProtocolId && arg0 != "" && utf8Valid(arg0)
 //@   assert at call link.NewHandleMountedStream: arg1 == lnk.GetLocalPeer() && arg2 == lnk.GetRemotePeer()
 //@   assert at call bus.ExecOneOff: same(arg2, dir)
+
+// ---- C06 / C04: the link tables ----
+// bcast guards the tables. Invariant (a): every entry of links is a non-nil established link whose
+// link reports the key as its UUID.
+//@ guards Controller.bcast: execCtx, peerID, tpt, links, linksByPeerID
+//@ lockinv Controller.bcast: self.links != nil && self.linksByPeerID != nil
+//@ lockinv Controller.bcast: forall u uint64 trigger dom(self.links, u) :: u in self.links ==> self.links[u] != nil && structobj(self.links[u])
+//@ lockinv Controller.bcast: forall u uint64 trigger dom(self.links, u) :: u in self.links ==> self.links[u].lnk != nil && self.links[u].di != nil
+//@ lockinv Controller.bcast: forall u uint64 trigger dom(self.links, u) :: u in self.links ==> self.links[u].lnk.GetUUID() == u
+
+// flushEstablishedLink (lock held by the caller): removes exactly el's entry from links; every other key is untouched.
+//@ func (*Controller).flushEstablishedLink
+//@   requires held(c.bcast) && el != nil && el.lnk != nil && el.di != nil && c.links != nil && c.linksByPeerID != nil
+//@   modifies c.links, c.linksByPeerID, c.linksByPeerID[el.lnk.GetRemotePeer()]
+//@   ensures !(el.lnk.GetUUID() in c.links)
+//@   ensures forall u uint64 trigger dom(c.links, u) :: u != el.lnk.GetUUID() ==> ((u in c.links) <==> old(u in c.links)) && c.links[u] == old(c.links[u])
+//@   ensures held(c.bcast)
+
+// Losing a link removes only entries that hold that very link: a newer link that replaced it
+// (same UUID) is never removed, and nothing is inserted or changed.
+//@ func (*transportHandler).HandleLinkLost
+//@   noframe
+//@   requires h.c != nil && lnk != nil
+//@   cs Controller.bcast ensures forall u uint64 trigger dom(self.links, u) :: old(u in self.links) && !(u in self.links) ==> old(self.links[u]).lnk == lnk
+//@   cs Controller.bcast ensures forall u uint64 trigger dom(self.links, u) :: (u in self.links) ==> old(u in self.links) && self.links[u] == old(self.links[u])
